@@ -141,6 +141,14 @@ pub fn ser_event<V: Serialize>(v: &V, model: J, origin: &str) -> J {
     outs.insert("io_bufwriter".into(), g(&|| { let mut w = std::io::BufWriter::with_capacity(16, Vec::new()); sonic_rs::to_writer(&mut w, v).map_err(es)?; w.into_inner().map_err(|e| e.to_string()) }));
     outs.insert("io_bufwriter_big".into(), g(&|| { let mut w = std::io::BufWriter::new(Vec::new()); sonic_rs::to_writer(&mut w, v).map_err(es)?; w.into_inner().map_err(|e| e.to_string()) }));
     outs.insert("boxed_vec".into(), g(&|| { let mut w: Box<Vec<u8>> = Box::new(Vec::new()); sonic_rs::to_writer(&mut w, v).map_err(es)?; Ok(*w) }));
+    // explicit serializers: Serializer::new / pretty / with_formatter(PrettyFormatter::with_indent(unit))
+    outs.insert("serializer_new".into(), g(&|| { let mut w = Vec::new(); { let mut s = sonic_rs::Serializer::new(&mut w); v.serialize(&mut s).map_err(es)?; } Ok(w) }));
+    pretty.insert("serializer_pretty".into(), g(&|| { let mut w = Vec::new(); { let mut s = sonic_rs::Serializer::pretty(&mut w); v.serialize(&mut s).map_err(es)?; } Ok(w) }));
+    let mut pretty_ind: Vec<J> = Vec::new();
+    for unit in [&b"\t"[..], b"    ", b"", b"-"] {
+        let r = g(&|| { let mut w = Vec::new(); { let mut s = sonic_rs::Serializer::with_formatter(&mut w, sonic_rs::format::PrettyFormatter::with_indent(unit)); v.serialize(&mut s).map_err(es)?; } Ok(w) });
+        pretty_ind.push(json!({"ind": bytes_j(unit), "out": r}));
+    }
     pretty.insert("to_string_pretty".into(), g(&|| sonic_rs::to_string_pretty(v).map(|s| s.into_bytes()).map_err(es)));
     pretty.insert("to_vec_pretty".into(), g(&|| sonic_rs::to_vec_pretty(v).map_err(es)));
     pretty.insert("writer_pretty".into(), g(&|| { let mut w = Vec::new(); sonic_rs::to_writer_pretty(&mut w, v).map_err(es)?; Ok(w) }));
@@ -153,7 +161,7 @@ pub fn ser_event<V: Serialize>(v: &V, model: J, origin: &str) -> J {
         let r = catch(|| { let sink: Sink = Default::default(); let mut w = BufferedWriter::new(FailAfter { buf: sink.clone(), limit: n }); let ok = sonic_rs::to_writer(&mut w, v).is_ok(); let wr = sink.borrow().clone(); (ok, wr) });
         match r { Ok((ok, written)) => fails.push(json!({"n":n,"ok":ok,"written":bytes_j(&written)})), Err(p) => fails.push(json!({"n":n,"ok":true,"written":[],"panic":p})) }
     }
-    json!({"ev":"ser","origin":origin,"model":model,"outs":outs,"pretty":pretty,"fails":fails})
+    json!({"ev":"ser","origin":origin,"model":model,"outs":outs,"pretty":pretty,"pretty_ind":pretty_ind,"fails":fails})
 }
 pub fn rt_event(text: &[u8], origin: &str) -> Option<J> {
     let v: sonic_rs::Value = catch(|| sonic_rs::from_slice(text).ok()).ok()??;
